@@ -77,7 +77,7 @@ def plan(tier, seed):
             continue        # statistic-on-statistic chains: thorough tier only (nonlinear on nonlinear)
         layouts = ['forward', 'reverse'] if tier == 'thorough' else [['forward', 'reverse'][idx % 2]]
         for layout in layouts:
-            jobs.append(dict(kind='pair', prod=pr, cons=co, param=pn, layout=layout, meta=(idx % 3 == 0), extra_consumer=(idx % 2 == 1), alt=(idx // 2) % 2,
+            jobs.append(dict(kind='pair', prod=pr, cons=co, param=pn, layout=layout, meta=(idx % 3 == 0), extra_consumer=(idx % 2 == 1), alt=(idx // 2) % 2, intcols=(idx % 4 == 1),
                              n=2 if heavy else 3, sampled=(tier == 'quick')))
     # deeper shapes: diamonds and depth-3 chains drawn from the typed grammar (labelled sampled)
     ndeep = 12 if tier == 'quick' else 120
@@ -257,8 +257,11 @@ def harness(ctx, cfg):
     mpvinputs.TABLE.clear()
     holders = {}
     for name, fz in model.inputs:
-        h = D.sym_array(ctx, name, (n,), 'f', 'ma', fuzzy=fz)
+        # integer columns: every second non-fuzzy leaf of a model is an int64 column when the job asks for it
+        kind = 'i' if (cfg.get('intcols') and not fz and len(holders) % 2 == 0) else 'f'
+        h = D.sym_array(ctx, name, (n,), kind, 'ma', fuzzy=fz)
         holders[name] = h
+        KINDS[name] = kind
         mpvinputs.TABLE[name] = h.arr
     snap = {name: D.arr_cells(h.arr) for name, h in holders.items()}
     # ---- reference evaluation, bottom-up (before the run, so that documented preconditions of statistic-driven
@@ -348,11 +351,14 @@ def harness(ctx, cfg):
 
 
 # ------------------------------------------------------------------ validation / replay against the real numpy
+KINDS = {}
+
+
 def concrete_inputs(snap, m, fuzzy_of):
     req = {}
     for name, (d, mk, rep) in snap.items():
-        req[name] = {'t': 'arr', 'rep': 'ma', 'kind': 'f', 'shape': [len(d)], 'fuzzy': fuzzy_of.get(name, False),
-                     'data': [float(symx.model_value(m, t)) for t in d], 'mask': [bool(symx.model_value(m, t)) for t in mk]}
+        req[name] = {'t': 'arr', 'rep': 'ma', 'kind': KINDS.get(name, 'f'), 'shape': [len(d)], 'fuzzy': fuzzy_of.get(name, False),
+                     'data': [(int(symx.model_value(m, t)) if KINDS.get(name) == 'i' else float(symx.model_value(m, t))) for t in d], 'mask': [bool(symx.model_value(m, t)) for t in mk]}
     return req
 
 
